@@ -5,6 +5,7 @@ import time
 import vlib
 
 NKINDS = 37
+ANY_KINDS = list(range(37)) + [45, 46]      # kinds usable in any polarity (37..44 are positive-polarity only)
 
 CFG = """INIT Init
 NEXT Next
@@ -221,7 +222,7 @@ def run(tier):
         slices = slice_world(world, nslices)
         for b in range(0, len(cases), 10):
             batch = cases[b:b + 10]
-            kinds = rnd.sample(range(NKINDS), natoms)
+            kinds = rnd.sample(ANY_KINDS, natoms)
             fs = []
             for j, c in enumerate(batch):
                 fid = "%s_%05d" % (sname, b + j)
@@ -283,8 +284,27 @@ def run(tier):
         natoms = 4
         world = gen_world(rnd, natoms, rnd.choice([6, 10, 16, 24, 40]))
         fs = [{"fid": "r%05d_%d" % (i, j), "ast": gen_bounded_formula(rnd, rnd.choice([3, 4, 5, 6]), natoms, 3)} for j in range(6)]
-        bcases.append({"id": "rand%05d" % i, "world": world, "kinds": rnd.sample(range(NKINDS), natoms), "formulas": fs,
+        bcases.append({"id": "rand%05d" % i, "world": world, "kinds": rnd.sample(ANY_KINDS, natoms), "formulas": fs,
                        "spell": rnd.randrange(4)})
+    # wide validations: 27 and 40 quantified constraints side by side in ONE validation (more than the translator's table
+    # of one-letter variable names), each decisive for exactly one target node
+    for wi, (width, quants) in enumerate(((27, ["nested"]), (40, ["nested", "atLeast", "atMost"]))):
+        paths = ["w%d" % j for j in range(1, width + 1)]
+        nodes = {"good": {"val": [True, True, True, True], "kids": {}}, "bad": {"val": [False, True, True, True], "kids": {}}}
+        nodes["t0"] = {"val": [True] * 4, "kids": {p: ["good"] for p in paths}}
+        for j, p in enumerate(paths):
+            nodes["t%d" % (j + 1)] = {"val": [True] * 4, "kids": dict({q: ["good"] for q in paths}, **{p: ["bad"]})}
+        xs = []
+        for j, p in enumerate(paths):
+            q = quants[j % len(quants)]
+            inner = {"k": "atom", "i": 1}
+            if q == "atMost":       # at most 0 children FAIL the atom  ==  every child satisfies it
+                xs.append({"k": "q", "q": "atMost", "n": 0, "p": p, "x": {"k": "not", "x": inner}})
+            else:
+                xs.append({"k": "q", "q": q, "n": 1 if q == "atLeast" else 0, "p": p, "x": inner})
+        world = {"targets": ["t%d" % j for j in range(width + 1)], "nodes": nodes}
+        bcases.append({"id": "wide%02d" % wi, "world": world, "kinds": [0, 3, 7, 11], "formulas": [{"fid": "wide%02d_f" % wi, "ast": {"k": "and", "xs": xs}}],
+                       "spell": wi})
     bobs = vlib.run_harness("logic", bcases, "c01_b", timeout=3000)
     bby = {c["id"]: c for c in bcases}
     lines = []
